@@ -6,8 +6,12 @@ remote flag and period; `stop()` clears a flag), in two flavours: with and witho
 
     m=<0|1> sc=<d|cob> {L=<id>,<0x1017 default|n>} {R=<id>} {P=<node>,<key>,<cob|n>,<nvars>} -- op …
 
-    ss:<µs|n> sx                      network.sync.start(period) / stop()
+    ss:<µs|n> sx                      network.sync.start(period) / stop()      (`n`: start() without argument)
+    sp:<µs|n>                         network.sync.period = µs/1e6 | None      (the attribute start() falls back on)
     ps:<n>,<k>,<µs|n> px:<n>,<k>      PdoMap.start(period) / stop()   (key k: rpdo[k], 100+k: tpdo[k])
+    pp:<n>,<k>,<µs|n>                 pdo.period = µs/1e6 | None
+    pr:<n>,<k>,<dt µs>,<hex>          a frame of this map arrives dt µs after the previous event of the environment:
+                                      pdo.on_message(pdo.cob_id, bytearray(hex), clock/1e6) (measures `period`)
     pu:<n>,<k>,<hex>                  pdo.data = bytearray(hex); pdo.update()
     pv:<n>,<k>,<i>,<v>                pdo[i].raw = v      (i-th mapped UNSIGNED8)
     pa:<n>                            network[n].pdo.stop()
@@ -40,12 +44,17 @@ THEOREMS = [
     "Canopen.C17.live_is_current",
     "Canopen.C17.state_change_clean",
     "Canopen.C17.restart_replaces",
+    "Canopen.C17.restart_without_period",
+    "Canopen.C17.start_without_period_refused",
+    "Canopen.C17.period_kept",
+    "Canopen.C17.received_frame_measures_period",
     "Canopen.C17.stopped_means_none",
     "Canopen.C17.heartbeat_zero_stops",
     "Canopen.C17.disconnect_stops_pdo",
     "Canopen.C17.heartbeat_payload_is_byte",
     "Canopen.C17.unrepaired_sync_start_leaks",
     "Canopen.C17.raising_state_change_breaks_current",
+    "Canopen.C17.period_assignment_while_running_breaks_current",
 ]
 FINGERPRINT = [
     "canopen.sync:SyncProducer.start",
@@ -53,6 +62,7 @@ FINGERPRINT = [
     "canopen.pdo.base:PdoMap.start",
     "canopen.pdo.base:PdoMap.stop",
     "canopen.pdo.base:PdoMap.update",
+    "canopen.pdo.base:PdoMap.on_message",
     "canopen.pdo.base:PdoBase.stop",
     "canopen.pdo.base:PdoVariable.set_data",
     "canopen.nmt:NmtBase.send_command",
@@ -78,13 +88,23 @@ ASSUMPTIONS = [
     "an unreadable 0x1017): such a call leaves the old state byte in a running heartbeat — proved "
     "necessary in Lean (`raising_state_change_breaks_current`), modelled and compared; the oracle stops "
     "checking currentness (only) from such a call on, the other clauses stay checked",
-    "attribute assignments other than through the listed calls (cob_id, period of a running producer) "
+    "assigning the `period` attribute of a producer whose task is running does not reach the task (it keeps the "
+    "period it was started with): such assignments are modelled and compared, excluded from `live_is_current` by "
+    "`CleanRun` (proved necessary: `period_assignment_while_running_breaks_current`), and the oracle stops "
+    "checking the period (only) of that producer until its next start or stop",
+    "frames received for a PDO map carry non-decreasing time stamps (the harness's clock only moves forward); "
+    "the oracle judges the measured period only for maps that have never been started (what `on_message` does "
+    "with frames that arrive while or after the map transmitted is compared with the model, not judged)",
+    "attribute assignments other than through the listed calls (cob_id, data without update()) "
     "and removal of nodes from the network are outside the histories considered",
 ]
 RULE = ("whole call histories over SYNC, PDO maps of local and remote nodes, heartbeat (direct calls, "
         "0x1017 writes locally and by SDO frame, NMT state changes by send_command / state setter / NMT "
-        "frame) and node guarding, on both bus flavours; exhaustive sequences of length <= 2 (quick) / "
-        "<= 3 (thorough) over a 30-call alphabet on a small configuration, plus seeded random histories "
+        "frame) and node guarding, on both bus flavours, including start() without a period after the period "
+        "was given by an earlier start, by assignment to the `period` attribute or measured from received "
+        "frames; exhaustive sequences of length <= 2 (quick) / "
+        "<= 3 (thorough) over a 36-call alphabet on a small configuration, every give / 0..2 intermediate calls / "
+        "restart-without-period history of SYNC and of a PDO map, plus seeded random histories "
         "(length 1..40 / 1..120) over random configurations with periods in {1 us .. 1 h}, heartbeat "
         "times in {0, 1, .., 65535}, payload lengths 0..8; non-trivial = at least one cyclic task was "
         "live after some call")
@@ -211,6 +231,7 @@ class Env:
     def __init__(self, cfg):
         self.cfg = cfg
         self.bus = FakeBus(bool(cfg["m"]))
+        self.clock = 0                # µs; time stamps of received frames (only moves forward)
         self.net = canopen.Network(bus=self.bus)
         if cfg["sc"] is not None:
             self.net.sync.cob_id = cfg["sc"]
@@ -262,6 +283,17 @@ def apply_op(env, tok):
         net.sync.start(per(f[0]))
     elif kind == "sx":
         net.sync.stop()
+    elif kind == "sp":
+        net.sync.period = per(f[0])
+    elif kind == "pp":
+        env.pmap(int(f[0]), int(f[1])).period = per(f[2])
+    elif kind == "pr":
+        m = env.pmap(int(f[0]), int(f[1]))
+        dt_us, data = int(f[2]), bytearray(unhx(f[3]))
+        if dt_us < 0:
+            raise ValueError("bad op: the clock only moves forward")
+        env.clock += dt_us
+        m.on_message(m.cob_id, data, env.clock / 1e6)
     elif kind == "ps":
         env.pmap(int(f[0]), int(f[1])).start(per(f[2]))
     elif kind == "px":
@@ -384,8 +416,8 @@ def model_skips(op):
     for tok in ops:
         kind, _, rest = tok.partition(":")
         f = rest.split(",")
-        if kind == "pu" and (int(f[0]), int(f[1])) in cfg.get("H", ()):
-            if len(unhx(f[2])) != size[(int(f[0]), int(f[1]))]:
+        if kind in ("pu", "pr") and (int(f[0]), int(f[1])) in cfg.get("H", ()):
+            if len(unhx(f[-1])) != size[(int(f[0]), int(f[1]))]:
                 return True
     return False
 
@@ -490,6 +522,18 @@ def oracle(op, out):
     want_period = {}      # producer -> period in µs the last successful start asked for
     in_domain = True      # no NMT state change so far raised after changing the state
     disconnected = False
+    pdo_cob = {(n, k): cob for n, k, cob, _ in cfg["P"]}
+    # the period a start() without argument has to use, from the calls alone: ("never",) nobody gave one,
+    # ("val", µs) the last one given (start(v), `period = v`, or measured between two received frames on a map
+    # that was never started), ("unknown",) where the documentation leaves it open (0 given, frames received
+    # around a transmission)
+    remembered = {}
+    ever_started = set()
+    last_rx = {}
+    clock = 0
+    loose_period = set()  # producers whose period attribute was assigned while their task ran
+    silent_why = {}
+    own1017 = {n: ("n" if d is None else str(d)) for n, d in cfg["L"]}   # None: not known from the calls
     seen_max = -1
     prev_api = {"S": "n", "P": {(n, k): ("n", bytes(nv)) for n, k, _, nv in cfg["P"]},
                 "H": {n: ("0", "n" if d is None else str(d)) for n, d in cfg["L"]}}
@@ -515,35 +559,83 @@ def oracle(op, out):
         # --- bookkeeping of what the API calls asked for
         target = None
         started = stopped = False
-        if kind == "ss":
-            target = ("sync",)
+        must_ok = None        # reason why this (re)start has to succeed, if it has to
+        must_refuse = False   # a start() without a period on a producer that was never given one
+        if kind in ("ss", "ps"):
+            if kind == "ss":
+                target, arg, exists, cob_ok = ("sync",), f[0], True, True
+            else:
+                target, arg = ("pdo", int(f[0]), int(f[1])), f[2]
+                exists = target[1:] in pdo_cob
+                cob_ok = exists and pdo_cob[target[1:]] is not None
+                ever_started.add(target)
             started = True
-            if ok:
-                want_period[target] = prev_api["S"] if f[0] == "n" else f[0]
+            if arg != "n":
+                remembered[target] = ("val", int(arg)) if int(arg) > 0 else ("unknown",)
+            rem = remembered.get(target, ("never",))
+            can_start = exists and cob_ok and not disconnected
+            if rem[0] == "val" and can_start:
+                must_ok = (f"the period {rem[1]} us was given by this call" if arg != "n" else
+                           f"start() was called without a period and the period {rem[1]} us had been given before")
+                if ok:
+                    want_period[target] = str(rem[1])
+            elif rem[0] == "never" and exists:
+                must_refuse = True
+            elif ok:
+                # nothing to hold the implementation to but its own attribute
+                want_period[target] = (prev_api["S"] if kind == "ss" else
+                                       prev_api["P"].get(target[1:], ("n",))[0]) if arg == "n" else arg
         elif kind == "sx":
             target, stopped = ("sync",), True
-        elif kind in ("ps", "px"):
-            target = ("pdo", int(f[0]), int(f[1]))
-            started, stopped = kind == "ps", kind == "px"
-            if kind == "ps" and ok:
-                want_period[target] = prev_api["P"].get(target[1:], ("n",))[0] if f[2] == "n" else f[2]
+        elif kind == "px":
+            target, stopped = ("pdo", int(f[0]), int(f[1])), True
+        elif kind in ("sp", "pp"):
+            tg = ("sync",) if kind == "sp" else ("pdo", int(f[0]), int(f[1]))
+            if kind == "sp" or tg[1:] in pdo_cob:
+                arg = f[0] if kind == "sp" else f[2]
+                remembered[tg] = ("never",) if arg == "n" else (("val", int(arg)) if int(arg) > 0 else ("unknown",))
+                if by.get(tg):
+                    loose_period.add(tg)      # assignment to the period of a running producer: outside the claim
+        elif kind == "pr":
+            tg = ("pdo", int(f[0]), int(f[1]))
+            if tg[1:] in pdo_cob:
+                clock += int(f[2])
+                if tg in ever_started:
+                    remembered[tg] = ("unknown",)
+                else:
+                    if tg in last_rx:
+                        d_us = clock - last_rx[tg]
+                        remembered[tg] = ("val", d_us) if d_us > 0 else ("unknown",)
+                    last_rx[tg] = clock
         elif kind == "pa":
             for n, k, _, _ in cfg["P"]:
                 if n == int(f[0]):
                     should[("pdo", n, k)] = False
+                    loose_period.discard(("pdo", n, k))
         elif kind in ("hs", "hx", "hw", "hd", "ow", "cm", "st"):
             n = int(f[0])
             target = ("hb", n)
+            is_local = n in [x for x, _ in cfg["L"]]
             ms = None
             if kind == "hs":
                 ms = int(f[1])
+                if ms > 0 and not disconnected:
+                    must_ok = f"start_heartbeat({ms}) on a connected network"
             elif kind in ("hw", "hd") and int(f[1]) < 65536:
                 ms = int(f[1])
+                if not disconnected:
+                    must_ok = f"0x1017 was written with {ms} on a connected network"
+                if is_local:
+                    own1017[n] = None if disconnected else str(ms)
             elif kind == "ow" and int(f[1]) == HB_INDEX and len(unhx(f[2])) >= 2:
                 ms = int.from_bytes(unhx(f[2])[:2], "little")
+                if not disconnected:
+                    must_ok = f"on_write(0x1017) with {ms} on a connected network"
             elif kind in ("cm", "st") and n in api["H"] and prev_api["H"][n][0] == "0" \
-                    and api["H"][n][0] == "127" and prev_api["H"][n][1] != "n":
-                ms = int(prev_api["H"][n][1])        # boot: heartbeat starts with the 0x1017 value
+                    and api["H"][n][0] == "127":
+                odv = own1017.get(n) if own1017.get(n) is not None else prev_api["H"][n][1]
+                if odv != "n":
+                    ms = int(odv)                    # boot: heartbeat starts with the 0x1017 value
             elif kind == "hx":
                 stopped = True
             if ms is not None:
@@ -553,29 +645,47 @@ def oracle(op, out):
                         want_period[target] = str(ms * 1000)
                 else:
                     stopped = True
-            if n not in [x for x, _ in cfg["L"]]:
-                target, started, stopped = None, False, False
+            if not is_local:
+                target, started, stopped, must_ok = None, False, False, None
         elif kind in ("gs", "gx"):
             target = ("guard", int(f[0]))
             started, stopped = kind == "gs", kind == "gx"
             if kind == "gs" and ok:
                 want_period[target] = f[1]
+            if kind == "gs" and not disconnected and (int(f[0]) == 0 or int(f[0]) in cfg["R"]):
+                must_ok = f"start_node_guarding({f[1]} us) on a connected network"
         elif kind == "dc":
             disconnected = True
+        if must_ok is not None and not ok:
+            cl = "refused_restart" if (kind in ("ss", "ps") and (f[0] if kind == "ss" else f[2]) == "n") else "refused_start"
+            return (f"{cl}/{target[0]}: {where} the call raised although {must_ok}; "
+                    f"producer {pname(target)} has {len(by.get(target, []))} task(s) running instead of its one")
+        if must_refuse:
+            if ok:
+                return (f"spurious_start/{target[0]}: {where} start() without a period returned normally although "
+                        f"{pname(target)} was never given a period")
+            should[target] = False
+            silent_why[target] = "after_refused_start"
         if target is not None:
             if stopped:
                 should[target] = False
-            elif started:
+                silent_why.pop(target, None)
+                loose_period.discard(target)
+            elif started and not must_refuse:
                 should[target] = True if ok else None
+                silent_why.pop(target, None)
+                if ok:
+                    loose_period.discard(target)
         if disconnected:
             for n, k, _, _ in cfg["P"]:
                 should[("pdo", n, k)] = False
+        loose_period = {q for q in loose_period if by.get(q)}
         # --- runs exactly when the calls say so
         for p, s in should.items():
             live = by.get(p, [])
             if s is False and live:
-                cl = "disconnect" if (p[0] == "pdo" and disconnected) else (
-                    "heartbeat_zero" if (p[0] == "hb" and kind != "hx") else "after_stop")
+                cl = silent_why.get(p) or ("disconnect" if (p[0] == "pdo" and disconnected) else (
+                    "heartbeat_zero" if (p[0] == "hb" and kind != "hx") else "after_stop"))
                 return (f"{cl}/{p[0]}: {where} producer {pname(p)} should be silent but task "
                         f"{live[0]['idx']} ({live[0]['id']:#x}, {live[0]['period']} us) is still running")
             if s is True and not live and prod.get(key_of(p, cfg, sc)) is not None:
@@ -590,7 +700,7 @@ def oracle(op, out):
         if in_domain:
             for p, ts in by.items():
                 t = ts[0]
-                if p in want_period and t["period"] != want_period[p]:
+                if p in want_period and p not in loose_period and t["period"] != want_period[p]:
                     return (f"stale_period/{p[0]}: {where} {pname(p)} runs with period {t['period']} us, "
                             f"the API state says {want_period[p]} us")
                 if p[0] == "sync":
@@ -607,7 +717,7 @@ def oracle(op, out):
                 if exp_data is not None and t["data"] != exp_data:
                     return (f"stale_payload/{p[0]}: {where} {pname(p)} transmits {hx(t['data'])}, "
                             f"its current payload is {hx(exp_data)}")
-                if exp_period is not None and t["period"] != exp_period:
+                if exp_period is not None and p not in loose_period and t["period"] != exp_period:
                     return (f"stale_period/{p[0]}: {where} {pname(p)} runs with period {t['period']} us, "
                             f"its period attribute says {exp_period}")
                 if t["ext"] != (t["id"] > 0x7FF):
@@ -643,7 +753,8 @@ def classify(op, out):
     cfg, ops = parse(op)
     n = len(ops)
     b = "1-3" if n <= 3 else ("4-15" if n <= 15 else ("16-40" if n <= 40 else "41+"))
-    return f"m{cfg['m']}:len{b}:{'err' if 'err;' in out else 'noerr'}"
+    again = any(t == "ss:n" or (t.startswith("ps:") and t.endswith(",n")) for t in ops)
+    return f"m{cfg['m']}:len{b}:{'err' if 'err;' in out else 'noerr'}:{'restart' if again else 'plain'}"
 
 
 def shrink_candidates(op):
@@ -669,8 +780,9 @@ NMT_NAMES = ["OPERATIONAL", "STOPPED", "SLEEP", "STANDBY", "PRE-OPERATIONAL", "I
 
 SMALL = "sc=d L=5,100 R=7 P=5,101,389,2 P=7,1,519,1 --"
 ALPHABET = [
-    "ss:100000", "ss:200000", "ss:n", "ss:0", "sx",
+    "ss:100000", "ss:200000", "ss:n", "ss:0", "sx", "sp:50000", "sp:n",
     "ps:5,101,1000", "ps:5,101,n", "px:5,101", "pu:5,101,0102", "pu:5,101,0000", "pv:5,101,1,7", "pa:5",
+    "pp:5,101,2000", "pp:5,101,n", "pr:5,101,300,0a0b",
     "ps:7,1,5000", "pu:7,1,09",
     "hs:5,100", "hs:5,0", "hx:5", "hw:5,250", "hw:5,0", "hd:5,300", "hd:5,0",
     "cm:5,128", "cm:5,1", "cm:5,129", "st:5,OPERATIONAL", "nc:0205", "nc:8100",
@@ -716,9 +828,9 @@ def rand_cfg(rng):
 
 def rand_period(rng, none_ok=True):
     r = rng.random()
-    if none_ok and r < 0.12:
+    if none_ok and r < 0.25:
         return "n"
-    if none_ok and r < 0.18:
+    if none_ok and r < 0.30:
         return "0"
     if r < 0.75:
         return str(rng.choice(PERIODS))
@@ -734,10 +846,19 @@ def rand_op(rng, locs, rems, pdos):
     kinds += ["guard"] * 2
     kind = rng.choice(kinds)
     if kind == "sync":
-        return rng.choice([f"ss:{rand_period(rng)}", f"ss:{rand_period(rng)}", "sx"])
+        return rng.choice([f"ss:{rand_period(rng)}", f"ss:{rand_period(rng)}", "sx", "ss:n",
+                           f"sp:{rand_period(rng)}"])
     if kind == "pdo":
         n, k, nv = rng.choice(pdos)
-        c = rng.randrange(9)
+        c = rng.randrange(13)
+        if c == 9:
+            return f"ps:{n},{k},n"
+        if c == 10:
+            return f"pp:{n},{k},{rand_period(rng)}"
+        if c >= 11:
+            ln = nv if rng.random() < 0.85 else rng.randrange(0, 9)
+            dt_us = rng.choice([0, 1, 1000, rng.choice(PERIODS), rng.randrange(1, 5000000)])
+            return f"pr:{n},{k},{dt_us},{hx(bytes(rng.choice([0, 1, 255, rng.randrange(256)]) for _ in range(ln)))}"
         if c <= 2:
             return f"ps:{n},{k},{rand_period(rng)}"
         if c == 3:
@@ -795,7 +916,27 @@ def rand_history(rng, maxlen):
     return " ".join(toks + ["--"] + ops)
 
 
+# restart without a period: every way of giving a period x up to two calls in between x start() without argument
+RESTART_CFG = "sc=d L=5,100 R=7 P=5,101,389,2 P=7,1,519,1 --"
+PDO_GIVES = [[], ["ps:5,101,1000"], ["pp:5,101,2500"], ["pr:5,101,10,0102", "pr:5,101,400,0304"],
+             ["ps:5,101,1000", "pp:5,101,3000"], ["pp:5,101,3000", "ps:5,101,1000"]]
+PDO_MIDS = ["px:5,101", "pa:5", "pu:5,101,0708", "pv:5,101,0,9", "ps:5,101,n", "ps:7,1,700", "hs:5,50",
+            "pr:5,101,77,0506", "pp:5,101,n", "ps:5,101,0", "dc"]
+SYNC_GIVES = [[], ["ss:100000"], ["sp:70000"], ["ss:100000", "sp:30000"]]
+SYNC_MIDS = ["sx", "ss:n", "ps:5,101,1000", "pa:5", "hs:5,50", "gs:7,5000", "sp:n", "ss:0", "dc"]
+
+
+def restart_histories():
+    for m in (0, 1):
+        for gives, mids, again in ((PDO_GIVES, PDO_MIDS, "ps:5,101,n"), (SYNC_GIVES, SYNC_MIDS, "ss:n")):
+            for give in gives:
+                for d in range(3):
+                    for mid in itertools.product(mids, repeat=d):
+                        yield f"m={m} {RESTART_CFG} " + " ".join(give + list(mid) + [again])
+
+
 def gen_ops(tier, rng):
+    yield from restart_histories()
     depth = 2 if tier == "quick" else 3
     for m in (0, 1):
         for d in range(1, depth + 1):
@@ -834,6 +975,16 @@ CORPUS = [
     # a state change that raises after changing the state (outside live_is_current; modelled, compared)
     "m=0 sc=d L=5,n -- hs:5,100 cm:5,128",
     "m=0 sc=d L=5,100 -- hs:5,100 cm:5,1 dc cm:5,129",
+    # restart without a period: start(v), data change, start(); stop(); start(); both bus flavours
+    "m=0 sc=d R=10 P=10,1,522,2 -- pv:10,1,0,52 ps:10,1,50000 pv:10,1,0,239 ps:10,1,n px:10,1 ps:10,1,n ps:10,1,200000 dc",
+    "m=1 sc=d R=10 P=10,1,522,2 -- pv:10,1,0,52 ps:10,1,50000 pv:10,1,0,239 ps:10,1,n px:10,1 ps:10,1,n ps:10,1,200000 dc",
+    # … with the period assigned by hand, taken back, measured from received frames (and ignored while transmitting)
+    "m=0 sc=d R=7 P=7,1,519,2 -- ps:7,1,n pp:7,1,2500 ps:7,1,n pa:7 ps:7,1,n pp:7,1,n ps:7,1,n pp:7,1,0 ps:7,1,n",
+    "m=0 sc=d R=7 P=7,1,519,2 -- pr:7,1,100,0102 ps:7,1,n pr:7,1,250,0304 ps:7,1,n pr:7,1,999,0506 px:7,1 pr:7,1,5,0708 "
+    "ps:7,1,n pr:7,1,0,090a pr:7,1,0,0b0c ps:7,1,n",
+    # … SYNC: start(v); start(); stop(); start(); period assigned by hand; never given / taken back -> refused
+    "m=0 sc=d -- ss:n ss:100000 ss:n sx ss:n sp:70000 ss:n sx sp:n ss:n",
+    "m=1 sc=256 -- sp:70000 ss:n sp:30000 ss:n dc ss:n",
     # error paths
     "m=0 sc=d R=7 P=7,1,n,2 -- ps:7,1,1000 ps:7,1,n ps:7,1,0",
     "m=1 sc=d L=5,100 -- ow:5,4119,01 ow:5,4119,- ow:5,4120,0100 nc:01 nc:-",
@@ -842,12 +993,16 @@ CORPUS = [
 LEVEL_TEXT = ("Lean 4 theorems over every configuration and every call history (unbounded length) of the "
               "four producers on both bus flavours: at most one live cyclic task per producer; a task runs "
               "exactly when the producer's handle says so; what runs carries the producer's current id, "
-              "payload and period; a (re)start leaves exactly the newly created task; stop, heartbeat time 0 "
+              "payload and period; a (re)start leaves exactly the newly created task; a start() without a period "
+              "after any history since the period was last given (start(v), assignment, measured from received "
+              "frames) succeeds and runs exactly one task with that period and the current payload, and is "
+              "refused leaving none running when no period was ever given; stop, heartbeat time 0 "
               "and disconnect (all PDO maps of all nodes) leave none; model tied to the code by an exhaustive "
               "short-history sweep plus seeded random histories compared call by call")
 LEVEL_NOTE = ("trusted: Lean kernel + propext/Classical.choice/Quot.sound; python-can's cyclic tasks are "
               "replaced by recording tasks (real schedulers/threads not exercised); live_is_current is "
               "claimed for histories in which no NmtSlave.send_command raised after changing the state (the "
-              "hypothesis is proved necessary); the model follows the repaired SyncProducer.start (F3) and "
+              "hypothesis is proved necessary) and nobody assigned the period attribute of a running producer "
+              "(proved necessary as well); the model follows the repaired SyncProducer.start (F3) and "
               "the payload snapshot in PeriodicMessageTask (F13)")
 TECHNIQUE = "Lean 4 invariant proof over call histories + differential correspondence with the implementation"
